@@ -31,7 +31,7 @@ MODEL = ["theories/Sni/RouteCorr.vo"]
 PROOFS = ["theories/Props/C02.vo"]
 STATEMENT_FILES = ["theories/Props/C02.v", "theories/Sni/RouteGen.v"]
 
-CODE = {"nolookup": 1, "err": 2, "home": 3, "notfound": 5, "forward": 6, "endpoint": 7}
+CODE = {"nolookup": 1, "err": 2, "home": 3, "notfound": 5, "forward": 6, "endpoint": 7, "panic": 8, "nilconn": 10}
 
 
 def hexlist(h):
@@ -50,11 +50,9 @@ def cbool(b):
 def route_term(r):
     table = []
     for e in r["table"]:
-        if e.get("err"):
-            table.append("(%s, None)" % hexlist(e["domain"]))
-        else:
-            table.append("(%s, Some (mkDest %s %s %s))" % (hexlist(e["domain"]), hexlist(e.get("name")),
-                                                          cbool(e.get("home")), hexlist(e.get("forward"))))
+        dest = "None" if e.get("nodest") else "(Some (mkDest %s %s %s))" % (
+            hexlist(e.get("name")), cbool(e.get("home")), hexlist(e.get("forward")))
+        table.append("(%s, mkLk %s %s)" % (hexlist(e["domain"]), dest, cbool(e.get("err"))))
     code = CODE.get(r.get("decision", ""), 9) if r["dialed"] else 0
     arg = r.get("decision_arg") if code in (6, 7) else ""
     return "RcRoute %s [%s] %s [%s] %s %s %s %s %d %s" % (
@@ -167,9 +165,24 @@ def oracle_route(r):
         return ("wrong-addr-to-dialer", "dialer got address %r for a connection from %r" % (r["dial_addr"], r["front_addr"]))
     entry = next((e for e in r["table"] if e["domain"] == r["sni"]), None)
     d = r["decision"]
+    shape = "no lookup configured" if not r["has_lookup"] else lookup_shape(entry)
+    if d == "panic":
+        return ("dial-crash:" + shape_key(r, entry),
+                "Server.dial panicked for the name %r (lookup result: %s): %s - in the server the connection goroutine "
+                "has no recover, so the whole proxy process ends"
+                % (sni, shape, bytes.fromhex(r.get("decision_arg", "")).decode("latin1")))
+    if d == "nilconn":
+        return ("dial-nil-conn:" + shape_key(r, entry),
+                "Server.dial returned neither a connection nor an error for the name %r (lookup result: %s)" % (sni, shape))
     if not r["has_lookup"] or entry is None or entry.get("err"):
         if d in ("endpoint", "home", "forward"):
-            return ("refused-name-routed", "name %r has no destination but was routed: %s" % (sni, d))
+            return ("refused-name-routed", "the lookup refuses the name %r (lookup result: %s) but the connection was "
+                    "routed: %s %r" % (sni, shape, d, bytes.fromhex(r.get("decision_arg", ""))))
+        return None
+    if entry.get("nodest"):
+        if d in ("endpoint", "home", "forward"):
+            return ("no-destination-routed", "the lookup has no destination for the name %r (lookup result: %s) but the "
+                    "connection was routed: %s" % (sni, shape, d))
         return None
     if d == "endpoint":
         if r["decision_arg"] != entry.get("name", "") or r["decision_arg"] not in r["endpoints"] \
@@ -181,6 +194,22 @@ def oracle_route(r):
             return ("endpoint-not-dialled", "name %r maps to connected endpoint %r but it was not dialled" % (
                 sni, bytes.fromhex(entry["name"])))
     return None
+
+
+def lookup_shape(entry):
+    if entry is None:
+        return "(nil, error) - name not in the table"
+    dest = "nil" if entry.get("nodest") else "Dest{Name:%r Home:%s ForwardTCP:%r}" % (
+        bytes.fromhex(entry.get("name", "")), bool(entry.get("home")), bytes.fromhex(entry.get("forward", "")))
+    return "(%s, %s)" % (dest, "error" if entry.get("err") else "nil")
+
+
+def shape_key(r, entry):
+    if not r["has_lookup"]:
+        return "no-lookup"
+    if entry is None:
+        return "nil-err"
+    return ("nil" if entry.get("nodest") else "dest") + "-" + ("err" if entry.get("err") else "nil")
 
 
 def oracle_office(ops):
